@@ -118,7 +118,18 @@ def _run_one(key):
            "solver_s": 0.0, "sat": 0, "unsat": 0, "validated": 0, "violations": [], "known": [],
            "inconclusive": [], "samples": [], "nontrivial": 0, "twin": None, "error": None}
     try:
-        ob.prepare()
+        try:
+            ob.prepare()
+        except Exception as e:
+            # an additional-dialect instance whose template that dialect's grammar does not accept (e.g. NATURAL JOIN under
+            # tsql): nothing to decide; the ansi instance of the same template is unaffected
+            if type(e).__name__ == "InvalidSyntaxException" and getattr(ob, "dialect", "ansi") not in ("ansi", "non-validating"):
+                out["skipped"] = "template not accepted under dialect %s" % ob.dialect
+                out["samples"] = [{"note": out["skipped"]}]
+                out["wall_s"] = round(time.time() - t0, 2)
+                out["covered"], out["cross_checked"] = [], 0
+                return out
+            raise
         budget = ob.budget_s * (2.5 if tier == "thorough" else 1)   # thorough instances carry more free names
         eng = Engine(max_paths=ob.max_paths, deadline=t0 + budget, label=key)
         results = eng.explore(ob.body)
@@ -361,6 +372,7 @@ def write_evidence(mod, pid, tier, seed, results, wall, nviol, known_seen, harne
                     "harness instance; non-trivial = the path reached the property assertion with a lineage result",
             "obligations": len(results),
             "obligations_holding": sum(1 for r in results if r["status"] == "holds"),
+            "obligations_skipped_dialect_rejects_template": sum(1 for r in results if r.get("skipped")),
             "queries": tot("queries"),
             "unsat": tot("unsat"),
             "sat": tot("sat"),
